@@ -247,6 +247,38 @@ def attribute(evs, case, want_stacks=False):
     return out
 
 
+# ---------------- C17: a wake-up (abort) issued during the latest poll must lead to another poll ----------------
+def oracle_c17_wake(evs, term, case):
+    """On a deadlock: a spawned future that was aborted and is stuck at an await point (its next operation is an
+    await of a JoinHandle) was not polled again after the abort's wake-up, although `abort` wakes the task: the wake-up
+    was lost.  Classified as F18 when, between the abort and the end of the trace, the task ran a nested poll loop
+    (block_on, or a blocking acquisition such as Mutex::lock / acquire_blocking) — that loop consumes Task::woken."""
+    out = []
+    if not term.startswith("deadlock:"):
+        return out
+    ids = [int(x) for x in term[10:-1].split(",") if x]
+    attr, stacks = attribute(evs, case, want_stacks=True)
+    bodies = case["bodies"]
+    aborts = {}
+    for i, e in enumerate(evs):
+        if e.kind == "O" and e.tag == 33:
+            aborts.setdefault(e.vals[0], i)
+    for t, i0 in aborts.items():
+        if t not in ids or t not in stacks or not stacks[t]:
+            continue
+        fr = stacks[t][-1]
+        ops = bodies[fr[0]] if fr[0] < len(bodies) else []
+        nxt = ops[fr[1]] if fr[1] < len(ops) else None
+        if nxt is None or nxt[:2] != "aw":
+            continue
+        # the task is suspended in an await: an abort issued before must have re-polled it (and cancelled it)
+        nested = any(evs[j].kind == "O" and evs[j].task == t and (evs[j].tag in (36, 10, 15, 18, 21, 24, 27, 2, 4)) for j in range(i0, len(evs)))
+        nested = nested or len(stacks[t]) > 1
+        out.append(("C17", "task %d was aborted (record %d) and is suspended at `%s` for ever: the abort's wake-up did not lead to another poll" % (t, i0, nxt),
+                    "F18" if nested else None))
+    return out
+
+
 # ---------------- C07: thread lifecycle, scopes, thread-locals ----------------
 def oracle_c07(evs, term, case):
     """Judges the implementation's own trace: closures run once, join hands over the joined thread's value and comes
